@@ -76,10 +76,11 @@ def _violations(prop, overrides=None):
 
 
 def _one(job):
-    kind, ident, prop, overrides, expect = job
+    kind, ident, prop, overrides, expect, base = job
     t0 = time.time()
     try:
-        base = _violations(prop)
+        if base is None:
+            base = set(_violations(prop))
         got = _violations(prop, overrides)
     except AnalysisError as e:
         return (kind, ident, prop, 'analysis-error', str(e)[:200], time.time() - t0)
@@ -132,9 +133,12 @@ def jobs_for(prop, tier, seed):
     return jobs, skipped
 
 
-def run(prop, tier, seed):
+def run(prop, tier, seed, base_keys=None):
     jobs, skipped = jobs_for(prop, tier, seed)
     t0 = time.time()
+    if base_keys is None:
+        base_keys = set(_violations(prop))
+    jobs = [j + (set(base_keys),) for j in jobs]
     if tier == 'thorough' and len(jobs) > 2:
         with multiprocessing.Pool(min(16, len(jobs))) as pool:
             results = pool.map(_one, jobs)
